@@ -120,6 +120,7 @@ func init() {
 		Explain: "Decides: (S3) CheckSlice accepts only when start <= end, start >= 0, not(step == 0 and end-start > 1), start < size, and SliceDetails validates every non-nil slice, clamps end and expands nil to (0,size,1); (S4) AP.S and Shape.S refuse more slices than axes and take (start,end,step) of every axis from SliceDetails; (S5) the length term under step > 0 is ceil((end-start)/step) with no extra condition, identical in both calculators; (S9) Slice/SliceInto take window and access pattern from one AP.S call, slice data and mask with the same window, record the parent and copy dtype/engine/flag. " +
 			"(S12) the sliced access pattern is marked NonContiguous at least when a non-outermost axis of a non-vector is sliced or a step > 1 is taken, with the outermost axis chosen by data order (names bound structurally). Not decided: offset (ndStart/ndEnd) arithmetic, stride scaling, which dimensions are dropped.",
 		Run: func(rc *rules.RC) {
+			rules.S16(rc, 1)
 			rules.S15(rc)
 			rules.S3(rc)
 			rules.S5(rc)
@@ -316,6 +317,7 @@ func init() {
 		Explain: "Decides: (F1) for every dtype the .npy writer accepts, the reader maps its descriptor back to the same dtype (both tables and the reader's special cases evaluated statically for the int size of the configuration); (F2) GobEncode puts exactly the tensor's own Shape(), Strides(), order, triangle, mask, Data() on the wire and GobDecode reads the same sequence and installs every value; (F5) the rank-1 .npy header form is used only for rank-1 tensors; (L1/L4) whether WriteNpy, GobEncode and ToMat64 consult the layout before emitting raw storage (they do not: known findings 18, 28); (K3/K1arms) the typed arms of the readers (convFromStrs, ReadNpy) use their own label type and bit size; (LF) every counting loop that emits elements by flat index is a reviewed site or is guarded by the layout predicate and consults the data order (a new flat fast path in a writer is reported); (S14) the readers install the decoded shape through an unlocked access pattern on every path (decoding into a tensor already in use must not silently keep the old shape); (P2) the writers do not modify the tensor. " +
 			"Not decided: value-level round trip (number formatting/parsing, header padding arithmetic, CSV record assembly), protobuf/flatbuffers field mapping.",
 		Run: func(rc *rules.RC) {
+			rules.F3(rc)
 			rules.WC(rc, 15)
 			rules.O6opt(rc)
 			rules.F1(rc)
